@@ -234,7 +234,7 @@ def natural_failures(env, fam, rng):
         ("construct:store-index", lambda: m.Store(P["a"][-1], r, x)),
         ("construct:le-bool", lambda: m.LE(deep, x)),
         ("construct:bvult-int", lambda: m.BVULT(x, v)),            # AttributeError, not PysmtTypeError
-        ("construct:bvule-int", lambda: m.BVULE(P["i"][-1], v)),
+        ("construct:bvule-intterm", lambda: m.BVULE(P["i"][-1], v)),
         ("construct:bvule-int", lambda: m.BVULE(x, v)),
         ("construct:bvslt-real", lambda: m.BVSLT(r, v)),
         ("construct:bvsle-int", lambda: m.BVSLE(x, v)),
